@@ -18,6 +18,8 @@ TAXA_POOL = [
     "x", "x/y", "call/print", "def/function",
     # non-word characters INSIDE a segment: a pattern stops at a word boundary, not at a slash (seeded change C04-d)
     "import/standard/urllib", "import/standard/urllib.request", "import/standard/xml.etree.ElementTree", "a/b-c", "a/b.c",
+    # names that START with "meta" without being under `meta/` (seeded changes C07-c, C17-e): ordinary taxa
+    "metaclass/definition", "meta", "meta_x/y", "meta-programming/x",
 ]
 # some paths, read as regular expressions, match OTHER paths too ("q.py" matches "q_py.py", "zz.py" matches "zzapy.py"):
 # a `.py` criterion is a pattern matched from the start, never a mere path (seeded change C04-c)
@@ -33,7 +35,9 @@ PREDICATES = [
     "contains", "inside", "after", "before", "is", "equals", "x≤y≤y≤x", "x<y", "y1 < x1 == x2 <= y2", "x == y",
     "overlaps", "meets", "started by", "finishes", "in", "y≤x≤x≤y", "x<x<y<y", "x=x=y=y", "X <= Y", "during",
 ]
-NEG_FORMS = [("", ""), ("", ""), ("not ", ""), ("!", ""), ("is not ", ""), ("", " not"), ("! ", "")]
+NEG_FORMS = [("", ""), ("", ""), ("not ", ""), ("!", ""), ("is not ", ""), ("", " not"), ("! ", ""),
+             # "adding the word not": any white space separates it (seeded change C05-e: literal "not " only)
+             ("not\t", ""), ("", "\tnot"), ("not\n", ""), ("not  ", ""), ("NOT\t", ""), ("  !", ""), ("", " \t not")]
 BAD_PREDICATES = ["foobar", "x>y", "is  after", ""]
 OPERATIONS = ["include", "exclude", "impart", "hide", "include all", "exclude all", "include any", "exclude any",
               "include", "exclude"]
